@@ -3,7 +3,8 @@
     OCaml natives; [nat], [positive], [N], [Z] stay extracted inductives. *)
 Require Extraction.
 Require Import ExtrOcamlBasic.
-From Gocc Require Import Base.Ranges Base.Utf8 Lex.Scan.
+From Gocc Require Import Base.Ranges Base.Utf8 Lex.Scan LR.Parse.
 Extraction "model.ml" add_range classes add_range_cases sorted_disjoint_from
   decode_rune encode_rune
-  Scan.scan Scan.scan_n Scan.init Scan.reset Scan.table_dfa.
+  Scan.scan Scan.scan_n Scan.init Scan.reset Scan.table_dfa
+  Parse.parse Parse.sem_node.
